@@ -631,28 +631,32 @@ theorem run_is_concat {f : α → Except Err (List Event)} {reads : List α} {ev
 
 /-! ## `summarize` adds up contributions of single events -/
 
+theorem getCount_cons [BEq κ] (k a : κ) (b : Nat) (l : List (κ × Nat)) :
+    getCount k ((a, b) :: l) = if a == k then b else getCount k l := by
+  simp only [getCount, List.find?_cons]
+  cases a == k <;> simp
+
 theorem getCount_incr [BEq κ] [LawfulBEq κ] (k k' : κ) (v : Nat) (l : List (κ × Nat)) :
     getCount k (incr k' v l) = getCount k l + (if k' == k then v else 0) := by
   induction l with
   | nil =>
-    by_cases h : k' = k <;> simp [incr, getCount, h]
+    simp only [incr, getCount_cons]
+    cases k' == k <;> simp [getCount]
   | cons p rest ih =>
     obtain ⟨a, b⟩ := p
     simp only [incr]
     by_cases hak' : a = k'
     · subst hak'
-      simp only [beq_self_eq_true, if_true]
-      by_cases hk : a = k
-      · subst hk; simp [getCount]
-      · simp [getCount, hk]
-    · have : (a == k') = false := by simp [hak']
-      simp only [this]
+      simp only [beq_self_eq_true, if_true, getCount_cons]
+      cases a == k <;> simp
+    · have h1 : (a == k') = false := by simp [hak']
+      simp only [h1, Bool.false_eq_true, if_false, getCount_cons, ih]
       by_cases hk : a = k
       · subst hk
-        have : ¬ k' = a := fun h => hak' h.symm
-        simp [getCount, this]
-      · simp only [getCount, List.find?_cons, beq_iff_eq, hk] at ih ⊢
-        simpa using ih
+        have : (k' == a) = false := by simp; exact fun h => hak' h.symm
+        simp [this]
+      · have : (a == k) = false := by simp [hk]
+        simp [this]
 
 /-- total of an association list of counters -/
 def sumVals (l : List (κ × Nat)) : Nat := (l.map (·.2)).sum
@@ -681,9 +685,16 @@ theorem incr_keys [BEq κ] [LawfulBEq κ] (k : κ) (v : Nat) (l : List (κ × Na
       have : a = k := by simpa using h
       subst this
       simp
-      tauto
     · simp only [List.map_cons, List.mem_cons, ih x]
-      tauto
+      constructor
+      · rintro (h | h | h)
+        · exact .inr (.inl h)
+        · exact .inl h
+        · exact .inr (.inr h)
+      · rintro (h | h | h)
+        · exact .inr (.inl h)
+        · exact .inl h
+        · exact .inr (.inr h)
 
 def evN : Event → Nat | .input .. => 1 | _ => 0
 def evBp1 : Event → Nat | .input b _ => b | _ => 0
@@ -731,3 +742,108 @@ theorem foldl_add_proj (proj : Summary → Nat) (c : Event → Nat)
 
 theorem add_n (s : Summary) (ev : Event) : (s.add ev).n = s.n + evN ev := by
   unfold Summary.add; split <;> simp [evN]
+theorem add_bp1 (s : Summary) (ev : Event) : (s.add ev).bp1 = s.bp1 + evBp1 ev := by
+  unfold Summary.add; split <;> simp [evBp1]
+theorem add_bp2 (s : Summary) (ev : Event) : (s.add ev).bp2 = s.bp2 + evBp2 ev := by
+  unfold Summary.add; split <;> simp [evBp2]
+theorem add_written (s : Summary) (ev : Event) : (s.add ev).written = s.written + evWritten ev := by
+  unfold Summary.add; split <;> simp [evWritten]
+theorem add_writtenBp1 (s : Summary) (ev : Event) : (s.add ev).writtenBp1 = s.writtenBp1 + evWrittenBp1 ev := by
+  unfold Summary.add; split <;> simp [evWrittenBp1]
+theorem add_writtenBp2 (s : Summary) (ev : Event) : (s.add ev).writtenBp2 = s.writtenBp2 + evWrittenBp2 ev := by
+  unfold Summary.add; split <;> simp [evWrittenBp2]
+theorem add_qual1 (s : Summary) (ev : Event) : (s.add ev).qualTrimmed1 = s.qualTrimmed1 + evQual1 ev := by
+  unfold Summary.add; split <;> simp_all [evQual1]
+theorem add_qual2 (s : Summary) (ev : Event) : (s.add ev).qualTrimmed2 = s.qualTrimmed2 + evQual2 ev := by
+  unfold Summary.add; split <;> simp_all [evQual2]
+theorem add_with1 (s : Summary) (ev : Event) : (s.add ev).withAdapters1 = s.withAdapters1 + evWith1 ev := by
+  unfold Summary.add; split <;> simp_all [evWith1]
+theorem add_with2 (s : Summary) (ev : Event) : (s.add ev).withAdapters2 = s.withAdapters2 + evWith2 ev := by
+  unfold Summary.add; split <;> simp_all [evWith2]
+theorem add_revComp (s : Summary) (ev : Event) :
+    (s.add ev).reverseComplemented = s.reverseComplemented + evRevComp ev := by
+  unfold Summary.add; split <;> simp [evRevComp]
+theorem add_filteredAt (k : Nat) (s : Summary) (ev : Event) :
+    getCount k (s.add ev).filteredByStep = getCount k s.filteredByStep + evFilteredAt k ev := by
+  unfold Summary.add; split <;> simp [evFilteredAt, getCount_incr]
+theorem add_filtered (s : Summary) (ev : Event) :
+    sumVals (s.add ev).filteredByStep = sumVals s.filteredByStep + evFiltered ev := by
+  unfold Summary.add; split <;> simp [evFiltered, sumVals_incr]
+theorem add_polyA1 (n : Nat) (s : Summary) (ev : Event) :
+    getCount n (s.add ev).polyA1 = getCount n s.polyA1 + evPolyA1 n ev := by
+  unfold Summary.add; split <;> simp_all [evPolyA1, getCount_incr]
+theorem add_polyA2 (n : Nat) (s : Summary) (ev : Event) :
+    getCount n (s.add ev).polyA2 = getCount n s.polyA2 + evPolyA2 n ev := by
+  unfold Summary.add; split <;> simp_all [evPolyA2, getCount_incr]
+
+theorem add_filtered_keys (x : Nat) (s : Summary) (ev : Event) :
+    x ∈ (s.add ev).filteredByStep.map (·.1) ↔ x ∈ s.filteredByStep.map (·.1) ∨ ev = .filtered x := by
+  unfold Summary.add; split <;> simp [incr_keys]
+  rename_i i
+  constructor
+  · rintro (h | h)
+    · exact .inr h.symm
+    · exact .inl h
+  · rintro (h | h)
+    · exact .inr h
+    · exact .inl h.symm
+
+theorem summarize_filtered_keys (x : Nat) (evs : List Event) :
+    x ∈ (summarize evs).filteredByStep.map (·.1) ↔ .filtered x ∈ evs := by
+  have : ∀ s : Summary, x ∈ (evs.foldl Summary.add s).filteredByStep.map (·.1) ↔
+      x ∈ s.filteredByStep.map (·.1) ∨ .filtered x ∈ evs := by
+    induction evs with
+    | nil => simp
+    | cons e es ih =>
+      intro s
+      rw [List.foldl_cons, ih, add_filtered_keys]
+      simp only [List.mem_cons]
+      constructor
+      · rintro ((h | h) | h)
+        · exact .inl h
+        · exact .inr (.inl h.symm)
+        · exact .inr (.inr h)
+      · rintro (h | h | h)
+        · exact .inl (.inl h)
+        · exact .inl (.inr h.symm)
+        · exact .inr h
+  simpa [summarize] using this {}
+
+/-- every scalar figure of the summary is the sum of the per-event contributions -/
+structure SummaryIs (s : Summary) (evs : List Event) : Prop where
+  n : s.n = total evN evs
+  bp1 : s.bp1 = total evBp1 evs
+  bp2 : s.bp2 = total evBp2 evs
+  written : s.written = total evWritten evs
+  writtenBp1 : s.writtenBp1 = total evWrittenBp1 evs
+  writtenBp2 : s.writtenBp2 = total evWrittenBp2 evs
+  qualTrimmed1 : s.qualTrimmed1 = total evQual1 evs
+  qualTrimmed2 : s.qualTrimmed2 = total evQual2 evs
+  withAdapters1 : s.withAdapters1 = total evWith1 evs
+  withAdapters2 : s.withAdapters2 = total evWith2 evs
+  reverseComplemented : s.reverseComplemented = total evRevComp evs
+  filteredAt : ∀ k, getCount k s.filteredByStep = total (evFilteredAt k) evs
+  filteredTotal : sumVals s.filteredByStep = total evFiltered evs
+  polyA1 : ∀ k, getCount k s.polyA1 = total (evPolyA1 k) evs
+  polyA2 : ∀ k, getCount k s.polyA2 = total (evPolyA2 k) evs
+
+theorem summarize_is (evs : List Event) : SummaryIs (summarize evs) evs where
+  n := by simpa [summarize] using foldl_add_proj (·.n) evN add_n evs {}
+  bp1 := by simpa [summarize] using foldl_add_proj (·.bp1) evBp1 add_bp1 evs {}
+  bp2 := by simpa [summarize] using foldl_add_proj (·.bp2) evBp2 add_bp2 evs {}
+  written := by simpa [summarize] using foldl_add_proj (·.written) evWritten add_written evs {}
+  writtenBp1 := by simpa [summarize] using foldl_add_proj (·.writtenBp1) evWrittenBp1 add_writtenBp1 evs {}
+  writtenBp2 := by simpa [summarize] using foldl_add_proj (·.writtenBp2) evWrittenBp2 add_writtenBp2 evs {}
+  qualTrimmed1 := by simpa [summarize] using foldl_add_proj (·.qualTrimmed1) evQual1 add_qual1 evs {}
+  qualTrimmed2 := by simpa [summarize] using foldl_add_proj (·.qualTrimmed2) evQual2 add_qual2 evs {}
+  withAdapters1 := by simpa [summarize] using foldl_add_proj (·.withAdapters1) evWith1 add_with1 evs {}
+  withAdapters2 := by simpa [summarize] using foldl_add_proj (·.withAdapters2) evWith2 add_with2 evs {}
+  reverseComplemented := by simpa [summarize] using foldl_add_proj (·.reverseComplemented) evRevComp add_revComp evs {}
+  filteredAt := fun k => by
+    simpa [summarize, getCount] using foldl_add_proj (fun s => getCount k s.filteredByStep) (evFilteredAt k) (add_filteredAt k) evs {}
+  filteredTotal := by
+    simpa [summarize, sumVals] using foldl_add_proj (fun s => sumVals s.filteredByStep) evFiltered add_filtered evs {}
+  polyA1 := fun k => by
+    simpa [summarize, getCount] using foldl_add_proj (fun s => getCount k s.polyA1) (evPolyA1 k) (add_polyA1 k) evs {}
+  polyA2 := fun k => by
+    simpa [summarize, getCount] using foldl_add_proj (fun s => getCount k s.polyA2) (evPolyA2 k) (add_polyA2 k) evs {}
